@@ -7,7 +7,8 @@ let ztable r = let n = integer r in List.init n (fun _ -> zl r)
 
 let handler r =
   match word r with
-  | "workload" -> let w = integer r in let t = integer r in put_zl (workload (nat_of_int w) (nat_of_int t))
+  | "workload" -> let w = integer r in let t = integer r in
+      (match workload (nat_of_int w) (nat_of_int t) with Ok l -> put_zl l | Exit -> put_w "EXIT" | OOB -> put_w "OOB" | Fuel -> put_w "FUEL")
   | "range" -> let a = integer r in let b = integer r in let s = integer r in
       (match range (z_of_int a) (z_of_int b) (z_of_int s) with Some l -> put_zl l | None -> put_w "DIVERGE")
   | "linspace" -> let a = num r in let b = num r in let n = integer r in put_fl (linear_space fops a b (nat_of_int n))
